@@ -93,6 +93,17 @@ CLAIMED = {
             'verify" holds only under their collision freedom, which is assumed, not shown); the base64 and struct models; '
             'sx engine. Timing and cost of attacker-chosen scrypt parameters are outside.',
             'DESIGN.md §6 C19'),
+    'C13': ('Value shapes (type trees) are enumerated, every leaf value is a solver variable: unbounded mathematical ints (all width '
+            'boundaries, signs and the 64-bit limits fall out of the path split of serialize_int and the struct range checks), Bool '
+            'terms, float tokens (NaN and out-of-float32-range flags symbolic), opaque str/bytes of symbolic length (utf-8 length '
+            'symbolic between chars and 4*chars), enum members by symbolic index. The real serialize_value and Serializable.loadb '
+            'run through the BytesIO/struct models; proven per path: deep equality (tuples as lists), stream position == len(encoding), '
+            'trailing bytes untouched, two concatenated encodings decode in sequence, and a refusal only for values outside the '
+            'documented domain.',
+            'Trusted: sx engine, struct/BytesIO models, rope/text equality, float32 packing as an uninterpreted token. Bounds: type trees '
+            'of depth <= 2 plus a selection of depth 3, container arity <= 2 (thorough 3); the MAX_ARRAY_LENGTH refusal is not exercised '
+            '(collections are concrete-length).',
+            'DESIGN.md §6 C13'),
 }
 
 NOT_YET = 'check not built yet in this round (planned: see DESIGN.md §6); not claimed'
